@@ -293,12 +293,20 @@ def run_follow_imports(chk: Check, ix) -> None:
         raise AnalysisError("expected the initial and the in-loop call of find_reachable_changed_modules")
 
 
+def _atom_text(e: ast.expr) -> str:
+    """Text of a leaf condition; a call of util.only_notes(messages, <format selector>) is one atom whatever
+    the spelling of the module prefix and of the selector (checked separately)."""
+    if isinstance(e, ast.Call) and call_name(e) == "only_notes" and e.args:
+        return f"only_notes({norm(e.args[0])})"
+    return norm(e)
+
+
 def _atoms(e: ast.expr) -> set[str]:
     if isinstance(e, ast.BoolOp):
         return set().union(*[_atoms(v) for v in e.values])
     if isinstance(e, ast.UnaryOp) and isinstance(e.op, ast.Not):
         return _atoms(e.operand)
-    return {norm(e)}
+    return {_atom_text(e)}
 
 
 def _eval_bool(e: ast.expr, env: dict[str, bool]) -> bool:
@@ -307,7 +315,7 @@ def _eval_bool(e: ast.expr, env: dict[str, bool]) -> bool:
         return all(vals) if isinstance(e.op, ast.And) else any(vals)
     if isinstance(e, ast.UnaryOp) and isinstance(e.op, ast.Not):
         return not _eval_bool(e.operand, env)
-    return env[norm(e)]
+    return env[_atom_text(e)]
 
 
 def _same_truth_table(a: ast.expr, b: ast.expr) -> bool:
@@ -344,7 +352,15 @@ def run_status(chk: Check, ix) -> None:
                 shape = isinstance(v.body, ast.Constant) and v.body.value == 1 and isinstance(v.orelse, ast.Constant) and v.orelse.value == 0
                 if shape and not (_atoms(v.test) <= _atoms(main_test)):
                     raise AnalysisError(f"Server.{mn}: status predicate `{norm(v.test)}` uses conditions main() does not ({sorted(_atoms(v.test) - _atoms(main_test))}); cannot compare")
-                if shape and _same_truth_table(v.test, main_test):
+                sel_ok = True
+                for c in ast.walk(v.test):
+                    if isinstance(c, ast.Call) and call_name(c) == "only_notes" and len(c.args) > 1:
+                        sel = c.args[1]
+                        if isinstance(sel, ast.Name):
+                            defs = [x.value for x in ast.walk(f.node) if isinstance(x, ast.Assign) and norm(x.targets[0]) == sel.id]
+                            sel = defs[0] if len(defs) == 1 else sel
+                        sel_ok = sel_ok and norm(sel).replace('"', "'").endswith(".output == 'json'")
+                if shape and sel_ok and _same_truth_table(v.test, main_test):
                     r5.ok(key, f.loc(a))
                 else:
                     r5.violation(key, f.loc(a), f"this path answers with a status that is not `1 if {main_pred} else 0`: the same program gets a different exit status from this daemon request than from a full run (for example output that consists only of notes)")
